@@ -1,4 +1,4 @@
-\* deliberately wrong design: a failed write returns without cancelling the registration.
+\* deliberately wrong design: the one-shot transmission (Release) goes through send() and forgets its registration.
 \* TLC must find that the transaction id is not reusable afterwards.
 SPECIFICATION Spec
 CONSTANTS
@@ -20,11 +20,11 @@ CONSTANTS
   AllowClose = FALSE
   AllowCtx = FALSE
   MaxCalls = 2
-  WFault = TRUE
+  WFault = FALSE
   TimeoutCarriesOver = FALSE
-  WriteErrKeepsEntry = TRUE
-  AllowFire = FALSE
-  FireRegisters = FALSE
+  WriteErrKeepsEntry = FALSE
+  AllowFire = TRUE
+  FireRegisters = TRUE
   MaxTry = 1
 INVARIANTS IdReusable
 CHECK_DEADLOCK FALSE
